@@ -78,7 +78,7 @@ def two_group_cases(rng, quick):
     for w in W:
         ops += ["st" + w, "sd" + w, "dl%s:0" % w, "d1%s:0" % w, "d2%s:0" % w, "d1%s:1" % w, "d2%s:1" % w, "dr%s:0" % w,
                 "pl" + w, "pt" + w, "sw%s:0" % w, "sw%s:1" % w, "SW%s:0" % w, "SW%s:1" % w, "S1%s:0" % w, "S2%s:1" % w,
-                "S2%s:0" % w, "rs" + w, "dn%s:0" % w, "up%s:0" % w, "dn%s:100" % w, "up%s:100" % w, "de%s:100" % w,
+                "S2%s:0" % w, "rs" + w, "tk%s:2" % w, "tk%s:13" % w, "tk%s:5" % w, "dn%s:0" % w, "up%s:0" % w, "dn%s:100" % w, "up%s:100" % w, "de%s:100" % w,
                 "dn%s:1" % w, "dn%s:101" % w]
     settle = ["sd0", "dl1:9", "dl0:9", "sd1", "dl0:9", "dl1:9"]
     # every single op and (thorough: every pair) after the warm states, then settle
@@ -157,6 +157,7 @@ def all_ops(nifs):
         for k in range(nifs + 1):
             ops += ["dn%s:%d" % (w, k), "up%s:%d" % (w, k)]
         ops += ["de%s:0" % w, "xa%s:0" % w, "xu%s:0" % w]   # xa/xu: down/up with the m.mu lock probe
+        ops += ["tk%s:%d" % (w, b) for b in (0, 2, 5, 9, 13)]   # checkPeerTimeout: not connected (+ timeout), old hb, skew, both
     return ops
 
 
@@ -172,7 +173,7 @@ def random_walk(rng, nifs, length):
         elif r < 0.40:    # crossed exchange
             ops += ["sd0", "sd1", "dl0:0", "dl1:0", "dl0:0", "dl1:0"]
         elif r < 0.50:    # one-sided loss then heal
-            ops += [rng.choice(["pl", "pt"]) + w, "sd" + o, "dl%s:999" % w, "dl%s:999" % o]
+            ops += [rng.choice(["pl" + w, "pt" + w, "tk%s:%d" % (w, rng.randrange(16))]), "sd" + o, "dl%s:999" % w, "dl%s:999" % o]
         elif r < 0.58:    # flap an interface
             k = rng.randrange(nifs + 1)
             ops += [rng.choice(["dn", "dn", "de", "up", "xa", "xu"]) + "%s:%d" % (w, k) for _ in range(rng.randint(1, 3))]
@@ -228,6 +229,18 @@ def gen_cases(rng, tier, budget):
                 cases.append(c + " " + " ".join(warm(k) + ["sd0", "dl1:9", "dl0:9", "sd1", "dl0:9", "dl1:9", "pl0", "pl1",
                                                         "sd1", "dl0:9", "dl1:9", "sd0", "dl1:9", "dl0:9"]))
             cases.append(c + " " + " ".join(random_walk(rng, 1, 60)))
+    # (7) checkPeerTimeout: all 16 input combinations from every warm state, on both nodes, one and two groups
+    #     (hasWaitingSRGs is node-global: a WAITING group makes the tick hit the other group too)
+    for c in (cfg(1, 200, 0, 50, 2, 2, 100, 0, 50, 2), cfg(2, 100, 1, 0, 0, 1, 100, 0, 0, 0)):
+        for pre in ([], ["st0"], ["st0", "st1"], warm(1), warm(2), warm(3), warm(1) + ["dn0:0", "dn1:0"], warm(1) + ["pl0"]):
+            for b in range(16):
+                for w in W:
+                    cases.append(" ".join([c] + pre + ["tk%s:%d" % (w, b), "sd0", "dl1:9", "dl0:9", "sd1", "dl0:9", "dl1:9"]))
+        for g in ("G2:100,0,50,1,200,0,50,1",):
+            for pre in (["st0"], ["st0", "st1", "sd0", "d11:0", "dl0:9"], warm(1), ["st0", "st1", "sd1", "d20:0", "dl1:9"]):
+                for b in range(16):
+                    for w in W:
+                        cases.append(" ".join([c, g] + pre + ["tk%s:%d" % (w, b), "sd0", "dl1:9", "dl0:9"]))
     # (6) two redundancy groups per Manager (mirrored priorities = active/active deployment), heartbeats that omit
     #     one group's status, per-group interfaces and switchovers
     cases += two_group_cases(rng, quick)
